@@ -72,7 +72,19 @@ func (o SwComponents[I]) MarshalCBOR() ([]byte, error) {
 }
 
 func (o *SwComponents[I]) UnmarshalCBOR(v []byte) error {
-	return dm.Unmarshal(v, &o.values)
+	var values []I
+
+	if err := dm.Unmarshal(v, &values); err != nil {
+		return err
+	}
+
+	if err := checkNoNullComponents(values); err != nil {
+		return err
+	}
+
+	o.values = values
+
+	return nil
 }
 
 func (o SwComponents[I]) MarshalJSON() ([]byte, error) {
@@ -80,7 +92,33 @@ func (o SwComponents[I]) MarshalJSON() ([]byte, error) {
 }
 
 func (o *SwComponents[I]) UnmarshalJSON(v []byte) error {
-	return json.Unmarshal(v, &o.values)
+	var values []I
+
+	if err := json.Unmarshal(v, &values); err != nil {
+		return err
+	}
+
+	if err := checkNoNullComponents(values); err != nil {
+		return err
+	}
+
+	o.values = values
+
+	return nil
+}
+
+// checkNoNullComponents returns an error if any of the decoded entries is a
+// null (e.g. CBOR/JSON "null" inside the software components array), which
+// would otherwise be stored as a nil pointer and dereferenced later on.
+func checkNoNullComponents[I ISwComponent](vals []I) error {
+	for i, sc := range vals {
+		v := reflect.ValueOf(sc)
+		if !v.IsValid() || (v.Kind() == reflect.Pointer && v.IsNil()) {
+			return fmt.Errorf("%w: null software component at index %d", ErrWrongSyntax, i)
+		}
+	}
+
+	return nil
 }
 
 func validateAndConvert[I ISwComponent](vals []ISwComponent) ([]I, error) {
